@@ -16,16 +16,39 @@ Import ListNotations.
    a+b = 0 and generic ones), every store, and ALL identities i1 i2 io -- the five
    aliasing patterns are the instances i1=i2, io=i1, io=i2.  The result is computed
    from the INITIAL contents of x1 and x2; every buffer other than out is unchanged;
-   the recursion of _lincomb_impl terminates (never OutOfFuel). *)
+   the recursion of _lincomb_impl terminates (never OutOfFuel).
+   [lincomb_impl] chooses the regime with the regenerated dispatch (regime_of) and the
+   regenerated _blas_is_applicable; in the BLAS branch the model loses every update that
+   BLAS would make on a copy (out not contiguous in the ravel order, or a dtype BLAS
+   converts), so this theorem also says: the dispatch never sends such a call to BLAS
+   (lemma blas_regime_sound, below as T1b). *)
 Theorem lincomb_correct :
   forall (T : Type) (N : Num T) (F : NumField T)
-         (floating blas_ok : bool) (a b : T) (i1 i2 io : nat) (s : store T),
+         (floating blas_dtype : bool) (f1 f2 fo : bool * bool)     (* dtype class; layout flags of x1, x2, out *)
+         (a b : T) (i1 i2 io : nat) (s : store T),
   length (s i1) = length (s i2) -> length (s io) = length (s i1) ->
-  exists s', lincomb_impl (fun u => u) floating blas_ok a i1 b i2 io s = Ok s'
+  exists s', lincomb_impl (fun u => u) floating blas_dtype [f1; f2; fo] a i1 b i2 io s = Ok s'
           /\ s' io = vlin a (s i1) b (s i2)
           /\ forall j, j <> io -> s' j = s j.
 Proof. exact @lincomb_impl_correct. Qed.
 Print Assumptions lincomb_correct.
+
+(* T1b  the regenerated dispatch + _blas_is_applicable + ravel-order rule: whenever the BLAS
+   branch is chosen, out.data.ravel(order) is a view of out and the dtype is a BLAS dtype,
+   i.e. the in-place BLAS calls really update out. *)
+Theorem blas_branch_updates_in_place :
+  forall (size : Z) (floating blas_dtype : bool) (f1 f2 fo : bool * bool),
+  regime_of size floating (blas_applicable true blas_dtype size [f1; f2; fo]) = Blas ->
+  bi_view (@blas_info blas_dtype [f1; f2; fo]) = true /\ bi_call (@blas_info blas_dtype [f1; f2; fo]) = true.
+Proof. exact blas_regime_sound. Qed.
+Print Assumptions blas_branch_updates_in_place.
+Example blas_branch_is_reachable :
+  regime_of 50000 true (blas_applicable true true 50000 [(true, false); (true, false); (true, false)]) = Blas
+  /\ regime_of 50000 true (blas_applicable true true 50000 [(true, false); (true, false); (false, false)]) = Fallback
+  /\ regime_of 49999 true (blas_applicable true true 49999 [(true, true); (true, true); (true, true)]) = Fallback
+  /\ regime_of 99 true (blas_applicable true true 99 [(true, true); (true, true); (true, true)]) = Direct
+  /\ regime_of 50000 true (blas_applicable true false 50000 [(true, true); (true, true); (true, true)]) = Fallback.
+Proof. vm_compute. repeat split. Qed.
 
 (* the hypotheses are satisfiable: the reals and the complex numbers are instances *)
 Example field_instances : NumField R * NumField (R * R).
@@ -36,9 +59,9 @@ Proof. exact (NumField_R, NumField_C). Qed.
    so this holds at every carrier and for every conversion. *)
 Theorem lincomb_nonfloating_correct :
   forall (T : Type) (N : Num T) (cast : T -> T)
-         (blas_ok : bool) (a b : T) (i1 i2 io : nat) (s : store T),
+         (blas_dtype : bool) (flags : list (bool * bool)) (a b : T) (i1 i2 io : nat) (s : store T),
   length (s i1) = length (s i2) ->
-  exists s', lincomb_impl cast false blas_ok a i1 b i2 io s = Ok s'
+  exists s', lincomb_impl cast false blas_dtype flags a i1 b i2 io s = Ok s'
           /\ s' io = map cast (vlin a (s i1) b (s i2))
           /\ forall j, j <> io -> s' j = s j.
 Proof. exact @lincomb_impl_nonfloating. Qed.
@@ -53,10 +76,11 @@ Print Assumptions lincomb_nonfloating_correct.
    itself one of the operands.  All other buffers are unchanged. *)
 Theorem lincomb_ignores_old_out :
   forall (T : Type) (N : Num T) (F : NumField T)
-         (r : regime) (a b : T) (i1 i2 io : nat) (s : store (option T)) (x1 x2 : list T),
+         (r : regime) (bi : blasinfo) (a b : T) (i1 i2 io : nat) (s : store (option T)) (x1 x2 : list T),
+  bi_ok r bi ->                         (* BLAS branch only when it updates in place: T1b *)
   s i1 = map Some x1 -> s i2 = map Some x2 ->
   length x1 = length x2 -> length (s io) = length x1 ->
-  exists s', lincomb_fuel 2 (fun u => u) r
+  exists s', lincomb_fuel 2 (fun u => u) r bi
                {| e_a := Some a; e_b := Some b; e_x1 := i1; e_x2 := i2; e_out := io |} s = Ok s'
           /\ s' io = map Some (vlin a x1 b x2)
           /\ forall j, j <> io -> s' j = s j.
@@ -64,14 +88,14 @@ Proof. exact @lincomb_poison_ok. Qed.
 Print Assumptions lincomb_ignores_old_out.
 
 (* set_zero() is lincomb(0, y, 0, y, out=y).  FULL STATEMENT (refuted below):
-     forall r i s,  exists s', lincomb_fuel 2 id r {0, 0, i, i, i} s = Ok s'
+     forall r i s,  exists s', lincomb_fuel 2 id r bi {0, 0, i, i, i} s = Ok s'
                                /\ s' i = map (fun _ => Some 0) (s i)
    i.e. y.set_zero() yields zeros whatever y held.  It holds from THRESHOLD_SMALL entries
    on (floating dtypes), where the tree writes out[:] = 0 ... *)
 Theorem set_zero_partial :
-  forall (T : Type) (N : Num T) (F : NumField T) (r : regime) (i : nat) (s : store (option T)),
-  r <> Direct ->
-  exists s', lincomb_fuel 2 (fun u => u) r
+  forall (T : Type) (N : Num T) (F : NumField T) (r : regime) (bi : blasinfo) (i : nat) (s : store (option T)),
+  r <> Direct -> bi_ok r bi ->
+  exists s', lincomb_fuel 2 (fun u => u) r bi
                {| e_a := of_Z 0; e_b := of_Z 0; e_x1 := i; e_x2 := i; e_out := i |} s = Ok s'
           /\ s' i = map (fun _ => Some nzero) (s i)
           /\ forall j, j <> i -> s' j = s j.
@@ -82,9 +106,9 @@ Print Assumptions set_zero_partial.
    non-floating dtype), which evaluates 0*y + 0*y: NaN / inf in y survive set_zero().
    Recorded finding C01/set_zero-nan-survives-direct. *)
 Theorem set_zero_direct_refuted :
-  forall (T : Type) (N : Num T),
+  forall (T : Type) (N : Num T) (bi : blasinfo),
   exists (i : nat) (s : store (option T)) (s' : store (option T)),
-    lincomb_fuel 2 (fun u => u) Direct
+    lincomb_fuel 2 (fun u => u) Direct bi
       {| e_a := of_Z 0; e_b := of_Z 0; e_x1 := i; e_x2 := i; e_out := i |} s = Ok s'
     /\ s' i <> map (fun _ => Some nzero) (s i).
 Proof. exact @set_zero_direct_counterexample. Qed.
@@ -106,11 +130,11 @@ From Verif Require Import C01.ModelSpace C01.ProofsSpace.
 
 Theorem pspace_lincomb_correct :
   forall (T : Type) (N : Num T) (F : NumField T)
-         (lay : nat -> nat -> nat -> bool) (icast : T -> T)
+         (flg : nat -> bool * bool) (bdtf : nat -> bool) (icast : T -> T)
          (sp : space) (a b : T) (x1 x2 out : elem) (s : store T),
   conf sp x1 -> conf sp x2 -> conf sp out ->
   wf (quads sp x1 x2 out) -> lens_ok s (quads sp x1 x2 out) ->
-  exists s', ps_lincomb lay icast sp a x1 b x2 out s = Ok s'
+  exists s', ps_lincomb flg bdtf icast sp a x1 b x2 out s = Ok s'
     /\ (forall q, In q (quads sp x1 x2 out) ->
           s' (q_out q) = map (cast_of icast (q_fl q)) (vlin a (s (q_x1 q)) b (s (q_x2 q))))
     /\ (forall j, ~ In j (map q_out (quads sp x1 x2 out)) -> s' j = s j).
